@@ -3,7 +3,7 @@
 // Contracts for the deductive verifier in /verif (comment-only: adds no declarations).
 package main
 
-//@ use strings nethttp fmt oauth2 neturl time ssh crypto errors
+//@ use strings nethttp fmt oauth2 neturl time ssh crypto errors x509
 
 // ---- C17: post-login redirects stay on the keymaster origin ------------------------------------
 //@ pure func noControlBytes(s string) bool = (forallIdx j int :: 0 <= j && j < len(s) ==> s[j] >= 0x20 && s[j] != 0x7f)
@@ -115,4 +115,22 @@ package main
 
 //@ func getValidSSHPublicKey
 //@   results key, userErr, err
+//@   nopanic @C10
 //@   ensures userErr == nil && err == nil ==> key == sshParse(userPubKey) && strongKey(sshCryptoKey(key))   #C10.ssh-validated @C10
+
+// ---- automation (role-requesting) certificates: C03 45 days, C10 strength, C11 refresh keeps the identity ----
+//@ func (*RuntimeState).parseRoleCertGenParams
+//@   results params, userErr, err
+//@   ensures userErr == nil && err == nil ==> params != nil && strongKey(params.UserPub)                  #C10.role-strong @C10
+//@   ensures userErr == nil && err == nil ==> params != nil && params.Duration == maxRoleRequestingCertDuration  #C03.role-45d @C03
+//@   ensures fresh(params)
+//@ func (*RuntimeState).parseRefreshRoleCertGenParams
+//@   results params, userErr, err
+//@   ensures userErr == nil && err == nil ==> params != nil && strongKey(params.UserPub)                  #C10.refresh-strong @C10
+//@   ensures userErr == nil && err == nil ==> params != nil && params.Duration == maxRoleRequestingCertDuration  #C03.refresh-45d @C03
+//@   ensures userErr == nil && err == nil ==> params != nil && params.Role == authData.Username            #C11.refresh-identity @C11
+//@   ensures fresh(params)
+//@ func (*RuntimeState).withParamsGenerateRoleRequestingCert
+//@   requires params != nil && strongKey(params.UserPub)                                                 #C10.role-gen-strong @C10
+//@   requires params != nil && params.Duration <= maxRoleRequestingCertDuration                          #C03.role-gen-45d @C03
+//@   requires ghostAuthed                                                                                #C06.authed-role @C06
